@@ -207,5 +207,27 @@ func initPath() {
 		dispatch(c, env{}, frame)
 		return "ret"
 	}
+	// exported DNS decoders called directly (Go-side oracle; models: DNS cluster)
+	impls["dnsq"] = func(a []string) string { // msghex index
+		p := packet.DNS(exact(lib.UnHex(a[0])))
+		if p.IsValid() != nil {
+			return "ret"
+		}
+		packet.DecodeQuestion(p, atoi(a[1]), make([]byte, 0, 64))
+		return "ret"
+	}
+	impls["dnsans"] = func(a []string) string { // msghex offset
+		p := packet.DNS(exact(lib.UnHex(a[0])))
+		if p.IsValid() != nil {
+			return "ret"
+		}
+		e := packet.NewDNSEntry()
+		e.IP4Records = map[netip.Addr]packet.IPResourceRecord{}
+		e.IP6Records = map[netip.Addr]packet.IPResourceRecord{}
+		e.CNameRecords = map[string]packet.NameResourceRecord{}
+		e.PTRRecords = map[string]packet.IPResourceRecord{}
+		e.DecodeAnswers(p, atoi(a[1]), make([]byte, 0, 64))
+		return "ret"
+	}
 	initUPNP()
 }
